@@ -125,6 +125,12 @@ std::string handle(const std::string& op, const Args& a) {
     PROG("negative",    view::negative(x0))
     PROG("matmul",      view::matmul(x0, x1))
     PROG("concatenate", view::concatenate(x0, x1, AXIS))
+    if (prog == "raw_matmul") {
+        // bounded C arrays as leaves (kept by reference in the operand tuple: get_function_operands_t, functor.hpp:805-807)
+        int ra[2][3] = {{0,1,2},{3,4,5}}; int rb[3][2] = {{1000,1001},{1002,1003},{1004,1005}};
+        leaves = {(const void*)&ra, (const void*)&rb};
+        PROG("raw_matmul", view::matmul(ra, rb))
+    }
 #elif C14_GROUP == 2
     PROG("where",       view::where(x0, x1, x2))
     PROG("vstack",      view::vstack(x0, x1))
